@@ -117,13 +117,15 @@ def launch(scns, W=3, timeout=150):
     return [{r: per_rank[r][k] for r in range(W) if per_rank[r][k] is not None} for k in range(len(scns))]
 
 
-def gloo_stream(ctx, gens, toolkit=False, classify=None):
-    """quick: ONE launch of 3 processes; thorough: one launch each for W = 2, 3, 4"""
+def gloo_stream(ctx, gens, toolkit=False, classify=None, extra=()):
+    """quick: ONE launch of 3 processes; thorough: one launch each for W = 2, 3, 4.
+    extra: fixed scenarios (witnesses) that join the launch of their world size -- like every other
+    scenario only when the checking transport reports no mismatch for them (i.e. once repaired)."""
     for W in ([3] if ctx.quick else [2, 3, 4]):
-        gloo_stream_w(ctx, gens, W)
+        gloo_stream_w(ctx, gens, W, [x for x in extra if x["W"] == W])
 
 
-def gloo_stream_w(ctx, gens, W):
+def gloo_stream_w(ctx, gens, W, extra=()):
     """ONE gloo launch: the same scenarios on the checking transport and on real gloo must agree
     (outcomes and traces)."""
     from . import core, syncutil as su
@@ -132,9 +134,14 @@ def gloo_stream_w(ctx, gens, W):
     want = ctx.n(40, 150)
     scns, sims = [], []
     tries = 0
+    pending = list(extra)
     while len(scns) < want and tries < 5000:
         tries += 1
-        scn = gens[tries % len(gens)](ctx.rng, W) if gens[tries % len(gens)].__code__.co_argcount == 2 else gens[tries % len(gens)](ctx.rng)
+        if pending:
+            scn = pending.pop(0)
+            s.count("witness-scenario")
+        else:
+            scn = gens[tries % len(gens)](ctx.rng, W) if gens[tries % len(gens)].__code__.co_argcount == 2 else gens[tries % len(gens)](ctx.rng)
         if scn["W"] != W or len(scn["group"]) < 1:
             continue
         iout, itr = su.run_sim(scn)
